@@ -264,6 +264,82 @@ Definition fmt_duration (d : Z) : string :=
         if N.eqb h 0 then mpart else N_to_string h ++ "h" ++ mpart in
   if neg then "-" ++ body else body.
 
+(* ------------------------------------------------------------------------ time.ParseDuration (Go 1.18) *)
+(* "[-+]?([0-9]*(\.[0-9]*)?[a-z]+)+", or "0".  Modelled over unbounded numbers: the overflow exits of ParseDuration are
+   not part of the model (they cannot be taken on the output of Duration.String for an int64, whose components sum to at
+   most 2^63), and the fraction `float64(f) * (float64(unit) / scale)` is modelled as the exact quotient f * unit / scale
+   (on the outputs of String the scale divides the unit - at most 9, 6, 3 fraction digits for s, ms, us - so the float
+   computation is exact). *)
+Local Open Scope N_scope.
+Definition is_digit (c : ascii) : bool := let n := N_of_ascii c in (N.leb 48 n && N.leb n 57)%bool.
+Definition digit_val (c : ascii) : N := N_of_ascii c - 48.
+Fixpoint pow10 (n : nat) : N := match n with O => 1 | S n' => 10 * pow10 n' end.
+(* leadingInt / leadingFraction: value of the leading digits, their number, the rest *)
+Fixpoint scan_digits (s : string) (acc : N) (cnt : nat) : N * nat * string :=
+  match s with
+  | String c s' => if is_digit c then scan_digits s' (acc * 10 + digit_val c) (S cnt) else (acc, cnt, s)
+  | EmptyString => (acc, cnt, s)
+  end.
+(* the unit: everything up to the next '.' or digit *)
+Fixpoint scan_unit (s : string) : string * string :=
+  match s with
+  | String c s' => if (is_digit c || Ascii.eqb c ".")%bool then (EmptyString, s)
+                   else let '(u, r) := scan_unit s' in (String c u, r)
+  | EmptyString => (EmptyString, EmptyString)
+  end.
+Definition micro_s : string := String (ascii_of_N 194) (String (ascii_of_N 181) "s").   (* U+00B5 micro sign *)
+Definition mu_s : string := String (ascii_of_N 206) (String (ascii_of_N 188) "s").      (* U+03BC greek mu *)
+Definition unit_ns (u : string) : option N :=
+  if String.eqb u "ns" then Some 1
+  else if String.eqb u "us" then Some 1000
+  else if String.eqb u micro_s then Some 1000
+  else if String.eqb u mu_s then Some 1000
+  else if String.eqb u "ms" then Some 1000000
+  else if String.eqb u "s" then Some 1000000000
+  else if String.eqb u "m" then Some 60000000000
+  else if String.eqb u "h" then Some 3600000000000
+  else None.
+Fixpoint parse_comps (fuel : nat) (s : string) (acc : N) : option N :=
+  match s with
+  | EmptyString => Some acc
+  | _ =>
+    match fuel with
+    | O => None
+    | S fuel' =>
+      let '(v, pre, s1) := scan_digits s 0 0 in
+      let '(f, post, s2) := match s1 with
+                            | String c s1' => if Ascii.eqb c "." then scan_digits s1' 0 0 else (0%N, O, s1)
+                            | EmptyString => (0%N, O, s1)
+                            end in
+      if (Nat.eqb pre O && Nat.eqb post O)%bool then None
+      else
+        let '(u, s3) := scan_unit s2 in
+        match u with
+        | EmptyString => None
+        | _ => match unit_ns u with
+               | None => None
+               | Some m => parse_comps fuel' s3 (acc + v * m + f * m / pow10 post)
+               end
+        end
+    end
+  end.
+Definition strip_sign (s : string) : bool * string :=
+  match s with
+  | String c r => if Ascii.eqb c "-" then (true, r) else if Ascii.eqb c "+" then (false, r) else (false, s)
+  | EmptyString => (false, s)
+  end.
+Definition parse_duration (s : string) : option Z :=
+  let '(neg, body) := strip_sign s in
+  if String.eqb body "0" then Some 0%Z
+  else match body with
+       | EmptyString => None
+       | _ => match parse_comps (String.length body) body 0 with
+              | Some n => Some (if neg then (- Z.of_N n)%Z else Z.of_N n)
+              | None => None
+              end
+       end.
+Local Close Scope N_scope.
+
 Definition string_to_Z (s : string) : option Z :=
   match NilZero.int_of_string s with Some i => Some (Z.of_int i) | None => None end.
 
